@@ -10,10 +10,11 @@ spec/Filter.tla (+ MC_Filter.tla):
     command log, LoadFromSnapshot, replayAOF, RewriteAOF, Compress, Vacuum;
     FromIndexes = evaluateBooleanFilter / FindIDsByFilter / VFilter;
   * Inv_IndexAgrees (C08) and structural invariants, checked by TLC over every history of the
-    bound; the CORPUS channel prints, for every reachable state, the history that reached it
-    first and the result set required for every filter of the basis (12 single clauses, all AND
-    pairs, all OR pairs, seeded larger expressions), plus what the pinned code is PREDICTED to
-    answer where its AddMetadataUnlocked (no list case) makes it deviate.
+    bound (exhaustive mode) and over seeded long histories (scripted mode); the CORPUS channel
+    prints, for every reachable state, the history that reached it and the result set required
+    for every filter of the basis (12 single clauses, all AND pairs, all OR pairs, seeded larger
+    expressions), plus what the pinned code is PREDICTED to answer where its AddMetadataUnlocked
+    (no list case) makes it deviate.
 harness/cmd/vfilter replays every history on a real engine and, after every step, sends every
 filter of the basis -- rendered with seeded spacing / keyword case / quoting / clause order -- to
 Engine.VFilter (set equality) and Engine.VSearch (subset).
@@ -46,10 +47,113 @@ def extra_filters(rng, n, nc=12):
         f = frozenset(blocks)
         if len(f) >= 2 and sum(len(b) for b in f) >= 4:
             out.add(f)
-    lit = "{" + ", ".join("{" + ", ".join("{" + ", ".join(str(c) for c in sorted(b)) + "}" for b in sorted(f, key=sorted)) + "}"
-                          for f in sorted(out, key=lambda f: sorted(map(sorted, f)))) + "}"
-    return lit
+    return "{" + ", ".join("{" + ", ".join("{" + ", ".join(str(c) for c in sorted(b)) + "}" for b in sorted(f, key=sorted)) + "}"
+                           for f in sorted(out, key=lambda f: sorted(map(sorted, f)))) + "}"
 
+
+# ---------------------------------------------------------------------------- seeded long histories (scripted mode)
+
+VALS = [("str", "s"), ("str", "t"), ("num", 1), ("num", 2), ("bool", True), ("bool", False), ("list", ["s"]), ("list", ["s", "t"]),
+        ("list", ["t"]), ("list", [])]
+
+
+def tla_value(v):
+    if v is None:
+        return "Absent"
+    t, x = v
+    if t == "str":
+        return 'Str("%s")' % x
+    if t == "num":
+        return "Num(%d)" % x
+    if t == "bool":
+        return "Bool(%s)" % ("TRUE" if x else "FALSE")
+    return "List(<<%s>>)" % ", ".join('"%s"' % e for e in x)
+
+
+def tla_meta(m):
+    return "[k |-> %s, j |-> %s]" % (tla_value(m.get("k")), tla_value(m.get("j")))
+
+
+def gen_walks(rng, n, length, ids):
+    """Histories the engine accepts: adds of ids that are not live, merges / deletes of live ids, at most
+    one compression, state transfers anywhere.  Biased towards what the property is about: overwrites with
+    the same / another type, deletes and re-adds, updates after a transfer, transfers after updates."""
+    walks = []
+    for _ in range(n):
+        live, prec32, w = set(), True, []
+        keys_used = rng.choice([["k"], ["k", "j"], ["k", "j"]])
+
+        def meta(nonempty):
+            while True:
+                m = {}
+                for k in keys_used:
+                    if rng.random() < 0.75:
+                        m[k] = rng.choice(VALS)
+                if m or not nonempty:
+                    return m
+
+        while len(w) < length:
+            u = rng.random()
+            dead = [i for i in ids if i not in live]
+            if (u < 0.22 or not live) and dead:
+                i = rng.choice(dead)
+                w.append(("Add", i, meta(False)))
+                live.add(i)
+            elif u < 0.52 and live:
+                w.append(("Set", rng.choice(sorted(live)), meta(True)))
+            elif u < 0.64 and live:
+                i = rng.choice(sorted(live))
+                w.append(("Del", i, {}))
+                live.discard(i)
+            elif u < 0.69:
+                w.append(("Vacuum", "", {}))
+            elif u < 0.77:
+                w.append(("Snap", "", {}))
+            elif u < 0.90:
+                w.append(("Reopen", "", {}))
+            elif u < 0.95:
+                w.append(("Rewrite", "", {}))
+            elif prec32 and live:
+                w.append(("Compress", "", {}))
+                prec32 = False
+        walks.append(w)
+    return walks
+
+
+def script_module(walks):
+    rows = []
+    for w in walks:
+        rows.append("  << " + ",\n     ".join('[op |-> "%s", id |-> "%s", m |-> %s]' % (op, i, tla_meta(m)) for op, i, m in w) + " >>")
+    return ("----------------------------- MODULE MC_Filter_script ------------------------------\n"
+            "(* generated by tools/check_C08.py: seeded histories followed by Filter.tla in scripted mode *)\n"
+            "EXTENDS MC_Filter\n"
+            "c_Script == <<\n" + ",\n".join(rows) + "\n>>\n"
+            "=============================================================================\n")
+
+
+def json_value(v):
+    if v is None:
+        return {"t": "absent", "s": "", "n": 0, "l": []}
+    t, x = v
+    if t == "str":
+        return {"t": "str", "s": x, "n": 0, "l": []}
+    if t == "num":
+        return {"t": "num", "s": "", "n": x, "l": []}
+    if t == "bool":
+        return {"t": "bool", "s": "true" if x else "false", "n": 0, "l": []}
+    return {"t": "list", "s": "", "n": 0, "l": list(x)}
+
+
+def json_op(o):
+    op, i, m = o
+    if op in ("Add", "Set"):
+        return {"op": op, "id": i, "m": {"k": json_value(m.get("k")), "j": json_value(m.get("j"))}}
+    if op == "Del":
+        return {"op": op, "id": i}
+    return {"op": op}
+
+
+# ---------------------------------------------------------------------------- refinement
 
 def harness_profile(seed, ids, basis):
     """Refinement of the abstract universe, varied with the seed."""
@@ -65,28 +169,38 @@ def harness_profile(seed, ids, basis):
             "clauses": basis["clauses"], "filters": basis["filters"]}
 
 
-def tlc_corpus(chk, name, c, workers=None, timeout=1500, simulate=None, depth=None, invs=INVS):
-    cfg = make_cfg("SpecCorpus", c, invs, [], view="View")
-    r = run_tlc("MC_Filter", name + ".cfg", cfg_text=cfg, workers=workers, timeout=timeout, simulate=simulate, depth=depth,
-                seed_=vlib.seed() if simulate else None)
-    if simulate:
-        chk.cov["tlc_runs"].append({"config": name, "mode": "simulate", "walks": simulate, "depth": depth,
-                                    "corpus_records": len(r.corpus), "wall_s": round(r.wall, 1), "ok": r.error is None})
-        if r.error is not None:
-            chk.infra.append("TLC (simulation) reported an error on %s: %s" % (name, r.error[:1500]))
-    else:
-        chk.add_tlc(name, r)
-    if r.violated:
-        raise Infra("TLC: %s violated in %s -- the specification's transcription (documented behaviour) disagrees with its own "
-                    "declarative semantics; specification error to fix:\n%s" % (r.violated, name, "\n".join(r.trace[-2:])[:3000]))
-    if not r.corpus or "BASIS" not in r.printed:
-        raise Infra("corpus run %s produced no histories:\n%s" % (name, r.raw_tail))
-    return r
+# ---------------------------------------------------------------------------- TLC
+
+def tlc_corpus(job):
+    """One TLC run: model-check the invariants and collect the corpus.  Returns (job, TLCResult)."""
+    c = job["consts"]
+    module, extra_files = "MC_Filter", None
+    if job.get("walks"):
+        module, extra_files = "MC_Filter_script", {"MC_Filter_script.tla": script_module(job["walks"])}
+        c = dict(c, Script="<- c_Script")
+    cfg = make_cfg("SpecCorpus", c, job.get("invs", INVS), [], view="View")
+    r = run_tlc(module, job["name"] + ".cfg", cfg_text=cfg, workers=job.get("workers"), timeout=job.get("timeout", 1500), extra_files=extra_files)
+    return job, r
 
 
-def behaviours_of(corpus):
-    """Prefix tree of the recorded histories: its leaves are replayed; every recorded prefix is judged
-    exactly once (in the first leaf, in sorted order, that runs through it)."""
+def behaviours_of(corpus, walks=None):
+    """Exhaustive mode: prefix tree of the recorded histories; its leaves are replayed and every recorded
+    prefix is judged exactly once (in the first leaf, in sorted order, that runs through it).
+    Scripted mode: one behaviour per history, every step judged."""
+    out = []
+    if walks is not None:
+        by = {}
+        for rec in corpus:
+            by[(rec["w"], rec["n"])] = rec
+        for wi, w in enumerate(walks, 1):
+            steps = []
+            for n, o in enumerate(w, 1):
+                rec = by.get((wi, n))
+                if rec is None:
+                    raise Infra("scripted history %d: TLC stopped at operation %d (%s): the generator produced a call the specification does not enable" % (wi, n, o))
+                steps.append({"op": json_op(o), "exp": rec["exp"], "pin": rec["pin"] or []})
+            out.append({"id": "w%d" % wi, "steps": steps})
+        return out, len(by), sum(len(b["steps"]) for b in out)
     table = {}
     for rec in corpus:
         table[json.dumps(rec["ops"], sort_keys=True)] = rec
@@ -97,7 +211,6 @@ def behaviours_of(corpus):
             prefixes.add(json.dumps(ops[:i], sort_keys=True))
     leaves = sorted((k for k, rec in table.items() if k not in prefixes and rec["ops"]))
     judged = set()
-    out = []
     for n, key in enumerate(leaves):
         ops = table[key]["ops"]
         steps = []
@@ -113,11 +226,9 @@ def behaviours_of(corpus):
     return out, len(table), len(judged)
 
 
-TRANSFER = {"Reopen", "Compress"}
-
-
 def provenance(ops):
-    """How the volatile state of the last step was obtained: live | snapshot | replay | rewrite | compress (+tail)."""
+    """How the volatile state after the last operation was obtained: live, or the latest state transfer
+    (snapshot restore | log replay | rewritten-log replay | compress)."""
     prov, snap, rew = "live", False, False
     for o in ops:
         n = o["op"]
@@ -138,7 +249,7 @@ TOTALS = ["behaviours", "steps", "states_judged", "filter_evals", "search_evals"
 def replay(chk, behaviours, prof, totals, label):
     binary = vlib.build_harness(cmd="vfilter")
     t0 = time.time()
-    res = vlib.run_sharded(binary, "filter", prof, behaviours, timeout=3000)
+    res = vlib.run_sharded(binary, "filter", prof, behaviours, shards=vlib.NCPU + vlib.NCPU // 2, timeout=3000)
     for e in res.get("errors", []):
         chk.infra.append("replay error (%s): %s" % (label, e))
     for k in TOTALS:
@@ -146,7 +257,7 @@ def replay(chk, behaviours, prof, totals, label):
     totals.setdefault("replay_wall_s", {})[label] = round(time.time() - t0, 1)
     if res.get("behaviours", 0) != len(behaviours):
         chk.infra.append("replay %s: %d of %d histories executed" % (label, res.get("behaviours", 0), len(behaviours)))
-    for s in res.get("samples", [])[:3]:
+    for s in res.get("samples", [])[:2]:
         if len(chk.cov["samples"]) < 6:
             chk.cov["samples"].append(s)
     return res.get("divergences", [])
@@ -166,12 +277,11 @@ def show_op(o):
 
 
 def classify(div):
-    """Name the divergence; a divergence whose answer is exactly what the specification predicts for
-    the pinned AddMetadataUnlocked (no list case) is the named deviation unlocked_no_list."""
+    """Name the divergence.  An answer that is exactly what the specification predicts for the pinned
+    AddMetadataUnlocked (no list case) is the named deviation unlocked_no_list."""
     kind = div["kind"]
-    pin = div.get("pin")
-    if pin is not None and div.get("pin") != div.get("exp"):
-        got, pinned = set(div.get("got") or []), set(pin)
+    if div.get("has_pin"):
+        got, pinned = set(div.get("got") or []), set(div.get("pin") or [])
         if kind == "filter_mismatch" and got == pinned:
             return "pinned:unlocked_no_list"
         if kind == "search_not_subset" and got <= pinned:
@@ -181,28 +291,28 @@ def classify(div):
 
 def describe(div, beh, prof):
     ops = [s["op"] for s in beh["steps"][: div["step"] + 1]] if beh else []
-    return "%s on %s after %s\n  filter %r (basis #%s)\n  expected %s got %s%s\n  %s\n  refinement: keys %s strings %s numbers n*%s%+g %s%s" % (
+    return "%s on %s after %s\n  filter %r (basis #%s)\n  expected %s got %s%s\n  %s\n  refinement: keys %s strings %s numbers n*%s%+g, %s" % (
         div["kind"], div.get("iface", "?"), " ; ".join(show_op(o) for o in ops), div.get("filter"), div.get("fi"),
-        div.get("exp"), div.get("got"), (" (the pinned transcription predicts %s)" % div["pin"]) if div.get("pin") is not None else "",
+        div.get("exp"), div.get("got"), (" (the pinned transcription predicts %s)" % div.get("pin")) if div.get("has_pin") else "",
         div.get("detail") or " ".join(div.get("diff") or []), prof["keys"], prof["strs"], prof["num_mul"], prof["num_add"],
-        "Go-native types" if prof.get("native") else "JSON types", "")
+        "Go-native types" if prof.get("native") else "JSON types")
 
 
 def judge(chk, divs, behaviours, prof, c, label):
     by_id = {b["id"]: b for b in behaviours}
-    divs = sorted(divs, key=lambda d: (d["step"], len(by_id[d["id"]]["steps"]) if d["id"] in by_id else 99, d["id"], d.get("fi", 0)))
+    divs = sorted(divs, key=lambda d: (d["step"], d["id"], d.get("fi", 0)))
     seen = set()
     for div in divs:
         beh = by_id.get(div["id"])
         div = dict(div, kind=classify(div))
         ops = [s["op"] for s in beh["steps"][: div["step"] + 1]] if beh else []
-        div["diff"] = (div.get("diff") or []) + ["state obtained: " + provenance(ops)]
+        prov = provenance(ops)
+        div["diff"] = (div.get("diff") or []) + ["state obtained: " + prov]
         kf = vlib.match_known(PROP, div, beh)
         if kf:
             chk.known.append((kf["id"], kf["what"]))
             continue
-        clause_sig = json.dumps(prof["filters"][div["fi"]]) if 0 <= div.get("fi", -1) < len(prof["filters"]) else ""
-        key = (div["kind"], div.get("iface"), provenance(ops), clause_sig)
+        key = (div["kind"], div.get("iface"), prov)
         if key in seen:
             continue
         seen.add(key)
@@ -216,41 +326,52 @@ def judge(chk, divs, behaviours, prof, c, label):
             chk.violations.append((what, "(not written: more than 20 violations)"))
 
 
-def bind(chk, name, c, totals, families, seed, workers=None, timeout=1500, simulate=None, depth=None, max_behaviours=None, invs=INVS):
-    r = tlc_corpus(chk, name, c, workers=workers, timeout=timeout, simulate=simulate, depth=depth, invs=invs)
+def bind(chk, job, r, totals, families):
+    name, c = job["name"], job["consts"]
+    chk.add_tlc(name, r)
+    if r.violated:
+        raise Infra("TLC: %s violated in %s -- the transcription of the DOCUMENTED behaviour disagrees with the declarative semantics "
+                    "(specification error to fix):\n%s" % (r.violated, name, "\n".join(r.trace[-2:])[:3000]))
+    if not r.ok:
+        raise Infra("TLC failed on %s:\n%s" % (name, (r.error or r.raw_tail)[:3000]))
+    if not r.corpus or "BASIS" not in r.printed:
+        raise Infra("corpus run %s produced no histories:\n%s" % (name, r.raw_tail))
     basis = r.printed["BASIS"][0]
-    corpus = r.corpus
-    behaviours, nstates, njudged = behaviours_of(corpus)
-    provs = {}
-    for rec in corpus:
-        p = provenance(rec["ops"])
-        provs[p] = provs.get(p, 0) + 1
-    pinned_states = sum(1 for rec in corpus if rec["pin"])
-    del corpus, r.corpus
-    if max_behaviours and len(behaviours) > max_behaviours:
-        behaviours = random.Random(seed).sample(behaviours, max_behaviours)
-    prof = harness_profile(seed, IDS[c["IdSeq"]], basis)
+    walks = job.get("walks")
+    behaviours, nstates, njudged = behaviours_of(r.corpus, walks)
+    provs, pinned_states = {}, 0
+    for b in behaviours:
+        ops = []
+        for s in b["steps"]:
+            ops.append(s["op"])
+            if s["exp"] is not None:
+                p = provenance(ops)
+                provs[p] = provs.get(p, 0) + 1
+                pinned_states += 1 if s["pin"] else 0
+    r.corpus = []
+    nall = len(behaviours)
+    if job.get("sample") and len(behaviours) > job["sample"]:
+        behaviours = random.Random(job["seed"]).sample(behaviours, job["sample"])
+    prof = harness_profile(job["seed"], IDS[c["IdSeq"]], basis)
     divs = replay(chk, behaviours, prof, totals, name)
     judge(chk, divs, behaviours, prof, c, name)
-    families.append({"config": name, "mode": "simulate" if simulate else "exhaustive", "states_recorded": nstates,
-                     "histories_replayed": len(behaviours), "states_judged_in_replay": sum(1 for b in behaviours for s in b["steps"] if s["exp"] is not None),
+    families.append({"config": name, "mode": "scripted seeded histories" if walks else "exhaustive", "states_recorded": nstates,
+                     "histories": nall, "histories_replayed": len(behaviours),
+                     "states_judged_in_replay": sum(1 for b in behaviours for s in b["steps"] if s["exp"] is not None),
                      "filters_in_basis": len(basis["filters"]), "states_by_provenance": provs,
                      "states_where_pinned_code_is_predicted_to_deviate": pinned_states,
                      "refinement": {k: prof[k] for k in ("keys", "strs", "num_mul", "num_add", "metric", "target")},
-                     "bound": "ids %s, metas %s / merges %s, clauses %s, steps %s, histories <= %s ops" % (
-                         c["IdSeq"][3:], c["AddMetas"][3:], c["SetMetas"][3:], c["Clauses"][3:], c["Steps"][3:], c["MaxOps"])})
-    return len(divs)
+                     "bound": ("%d seeded histories of %d operations over ids %s, values of every type on both keys" % (len(walks), len(walks[0]), c["IdSeq"][3:])) if walks else
+                              "ids %s, metas %s / merges %s, clauses %s, steps %s, every history of <= %s operations" % (
+                                  c["IdSeq"][3:], c["AddMetas"][3:], c["SetMetas"][3:], c["Clauses"][3:], c["Steps"][3:], c["MaxOps"])})
 
 
 def deviation_probe(chk, c):
     """TLC on the pinned transcription: Inv_PinnedAgrees must be violated (the specification finds the
     defect of AddMetadataUnlocked on its own); recorded as evidence, decided on the code by the binding."""
     cfg = make_cfg("Spec", c, ["Inv_PinnedAgrees"], [], view="View")
-    r = run_tlc("MC_Filter", "MC_Filter_pinned.cfg", cfg_text=cfg, workers=4, timeout=600)
-    chk.cov["tlc_runs"].append({"config": "MC_Filter_pinned (expected counterexample)", "distinct_states": r.distinct, "states_generated": r.generated,
-                                "violated": r.violated, "counterexample_length": len(r.trace), "wall_s": round(r.wall, 1)})
-    if r.violated != "Inv_PinnedAgrees":
-        chk.infra.append("the pinned transcription (AddMetadataUnlocked without the list case) was expected to violate Inv_PinnedAgrees: %s" % (r.error or r.raw_tail)[:800])
+    r = run_tlc("MC_Filter", "MC_Filter_pinned.cfg", cfg_text=cfg, workers=2, timeout=600)
+    return r
 
 
 def run(tier):
@@ -259,25 +380,55 @@ def run(tier):
     rng = random.Random(seed)
     quick = tier == "quick"
     totals, families = {}, []
-    W = vlib.NCPU
+    ids3 = IDS["<- c_Ids3"]
     if quick:
-        bind(chk, "MC_Filter_q_types", consts(add="<- c_Add_K8", set_="<- c_Set_K8", max_ops=4, extra=extra_filters(rng, 12)), totals, families, seed, W, 600)
-        bind(chk, "MC_Filter_q_3ids", consts(ids="<- c_Ids3", add="<- c_Add_K3", set_="<- c_Set_K3", max_ops=4, extra=extra_filters(rng, 12)), totals, families, seed + 100, W, 600)
-        bind(chk, "MC_Filter_q_2keys", consts(add="<- c_Add_KJ32", set_="<- c_Set_KJ32", basis="<- c_Basis2", max_ops=3, extra=extra_filters(rng, 12)), totals, families, seed + 200, W, 600)
+        jobs = [
+            {"name": "MC_Filter_q_types", "consts": consts(add="<- c_Add_K8", set_="<- c_Set_K8", max_ops=3, extra=extra_filters(rng, 12)), "seed": seed},
+            {"name": "MC_Filter_q_3ids", "consts": consts(ids="<- c_Ids3", add="<- c_Add_K3", set_="<- c_Set_K3", max_ops=3, extra=extra_filters(rng, 12)), "seed": seed + 100},
+            {"name": "MC_Filter_q_2keys", "consts": consts(add="<- c_Add_KJ32", set_="<- c_Set_KJ32", basis="<- c_Basis2", max_ops=3, extra=extra_filters(rng, 12)), "seed": seed + 200},
+            {"name": "MC_Filter_q_walks", "consts": consts(ids="<- c_Ids3", max_ctr=99, extra=extra_filters(rng, 12)), "seed": seed + 300,
+             "walks": gen_walks(rng, 260, 16, ids3)},
+            {"name": "MC_Filter_q_walks2", "consts": consts(ids="<- c_Ids3", basis="<- c_Basis2", max_ctr=99, extra=extra_filters(rng, 12)), "seed": seed + 400,
+             "walks": gen_walks(rng, 140, 16, ids3)},
+        ]
+        workers, tmo = 4, 600
     else:
-        bind(chk, "MC_Filter_t_types", consts(add="<- c_Add_K9", set_="<- c_Set_K9", max_ops=5, extra=extra_filters(rng, 24)), totals, families, seed, W, 3000)
-        bind(chk, "MC_Filter_t_3ids", consts(ids="<- c_Ids3", add="<- c_Add_K3", set_="<- c_Set_K3", max_ops=5, max_ctr=5, extra=extra_filters(rng, 24)), totals, families, seed + 100, W, 3000)
-        bind(chk, "MC_Filter_t_2keys", consts(add="<- c_Add_KJ4", set_="<- c_Set_KJ4", basis="<- c_Basis2", max_ops=4, extra=extra_filters(rng, 24)), totals, families, seed + 200, W, 3000)
-        bind(chk, "MC_Filter_t_walks", consts(ids="<- c_Ids3", add="<- c_Add_KJ8", set_="<- c_Set_KJ8", max_ops=10, max_ctr=8, extra=extra_filters(rng, 24)),
-             totals, families, seed + 300, W, 3000, simulate=3000, depth=11)
-    # the literal definitions (Expected, FromIndexes) against the tabulated form, and restart agreement, on a small configuration
-    small = consts(add="<- c_Add_K8", set_="<- c_Set_K8", max_ops=3, extra=extra_filters(rng, 6))
-    cfg = make_cfg("Spec", small, INVS + ["Inv_TablesCompose", "Inv_RestartAgrees"], [], view="View")
-    r = run_tlc("MC_Filter", "MC_Filter_defs.cfg", cfg_text=cfg, workers=W, timeout=900)
-    chk.add_tlc("MC_Filter_defs", r)
-    if r.violated:
-        raise Infra("TLC: %s violated in MC_Filter_defs (specification error):\n%s" % (r.violated, "\n".join(r.trace[-2:])[:3000]))
-    deviation_probe(chk, consts(add="<- c_Add_KL", set_="<- c_Set_KL", max_ops=3, pairs=False))
+        jobs = [
+            {"name": "MC_Filter_t_types", "consts": consts(add="<- c_Add_K9", set_="<- c_Set_K9", max_ops=4, extra=extra_filters(rng, 24)), "seed": seed},
+            {"name": "MC_Filter_t_3ids", "consts": consts(ids="<- c_Ids3", add="<- c_Add_K3", set_="<- c_Set_K3", max_ops=5, max_ctr=5, extra=extra_filters(rng, 24)), "seed": seed + 100},
+            {"name": "MC_Filter_t_2keys", "consts": consts(add="<- c_Add_KJ4", set_="<- c_Set_KJ4", basis="<- c_Basis2", max_ops=4, extra=extra_filters(rng, 24)), "seed": seed + 200},
+            {"name": "MC_Filter_t_walks", "consts": consts(ids="<- c_Ids3", max_ctr=99, extra=extra_filters(rng, 24)), "seed": seed + 300,
+             "walks": gen_walks(rng, 2500, 24, ids3)},
+            {"name": "MC_Filter_t_walks2", "consts": consts(ids="<- c_Ids3", basis="<- c_Basis2", max_ctr=99, extra=extra_filters(rng, 24)), "seed": seed + 400,
+             "walks": gen_walks(rng, 1500, 24, ids3)},
+        ]
+        workers, tmo = 6, 3000
+    for j in jobs:
+        j.setdefault("workers", workers)
+        j.setdefault("timeout", tmo)
+    # the literal definitions (Expected, FromIndexes) against the tabulated form, restart agreement: small configuration
+    small = {"name": "MC_Filter_defs", "consts": consts(add="<- c_Add_K8", set_="<- c_Set_K8", max_ops=3 if quick else 4, extra=extra_filters(rng, 6), pairs=not quick),
+             "invs": ALL_INVS, "workers": workers, "timeout": tmo}
+
+    pool = ThreadPoolExecutor(max_workers=4)
+    futs = [pool.submit(tlc_corpus, j) for j in jobs]
+    fut_small = pool.submit(tlc_corpus, small)
+    fut_dev = pool.submit(deviation_probe, chk, consts(add="<- c_Add_KL", set_="<- c_Set_KL", max_ops=3, pairs=False))
+    try:
+        for fut in futs:
+            job, r = fut.result()
+            bind(chk, job, r, totals, families)
+        _, r = fut_small.result()
+        chk.add_tlc("MC_Filter_defs", r)
+        if r.violated:
+            raise Infra("TLC: %s violated in MC_Filter_defs (specification error):\n%s" % (r.violated, "\n".join(r.trace[-2:])[:3000]))
+        r = fut_dev.result()
+        chk.cov["tlc_runs"].append({"config": "MC_Filter_pinned (the pinned AddMetadataUnlocked: counterexample expected)", "distinct_states": r.distinct,
+                                    "states_generated": r.generated, "violated": r.violated, "counterexample_length": len(r.trace), "wall_s": round(r.wall, 1)})
+        if r.violated != "Inv_PinnedAgrees":
+            chk.infra.append("the pinned transcription (AddMetadataUnlocked without the list case) was expected to violate Inv_PinnedAgrees: %s" % (r.error or r.raw_tail)[:800])
+    finally:
+        pool.shutdown(wait=True, cancel_futures=True)
 
     chk.cov["traces_validated_against_impl"] = totals.get("behaviours", 0)
     chk.cov["evaluations"] = totals.get("filter_evals", 0) + totals.get("search_evals", 0)
@@ -294,22 +445,23 @@ def run(tier):
             provs[k] = provs.get(k, 0) + v
     for p in ("live", "snapshot", "replay", "rewrite", "compress"):
         if provs.get(p, 0) < 20:
-            chk.infra.append("vacuous coverage: only %d states obtained through %s" % (provs.get(p, 0), p))
+            chk.infra.append("vacuous coverage: only %d judged states obtained through %s" % (provs.get(p, 0), p))
     chk.cov["states_by_provenance"] = provs
     chk.cov["rule"] = (
-        "per configuration TLC enumerates EVERY history of the bound (one per distinct state and length; random walks in the *_walks family) and checks "
-        "Inv_IndexAgrees + structural invariants on it; every recorded state is reached on a real engine by replaying its history and judged once: "
+        "exhaustive configurations: TLC enumerates EVERY history of the bound (one per distinct state and length) and checks Inv_IndexAgrees + structural "
+        "invariants; scripted configurations: seeded long histories (adds, merges with same/other type, deletes, re-adds, vacuum, snapshot, rewrite, reopen, compress) "
+        "are followed by TLC operation by operation under the same invariants. Every recorded state is reached on a real engine by replaying its history and judged once: "
         "every filter of the basis (12 single clauses, 66 AND pairs, 66 OR pairs, seeded 2-3 block expressions) is rendered with seeded spacing / keyword case / "
         "quoting / clause order and sent to VFilter (set equality with the specification) and VSearch (subset). "
-        + "; ".join("%s: %d states, %d histories, %d filters" % (f["config"], f["states_recorded"], f["histories_replayed"], f["filters_in_basis"]) for f in families))
+        + "; ".join("%s: %d states, %d of %d histories replayed, %d filters" % (f["config"], f["states_recorded"], f["histories_replayed"], f["histories"], f["filters_in_basis"]) for f in families))
     chk.assumptions += [
-        "metadata values are drawn from {\"s\",\"t\", 1, 2, true, false, [\"s\"], [\"s\",\"t\"], [] , absent} over two keys (refined by the harness to other strings / "
+        "metadata values are drawn from {\"s\",\"t\", 1, 2, true, false, [\"s\"], [\"s\",\"t\"], [\"t\"], [], absent} over two keys (refined by the harness to other strings / "
         "numbers / field names, order preserving); strings that look like numbers or booleans, list elements that are not strings, nested maps and JSON null are "
         "outside the universe (ambiguous or undocumented)",
         "values reach the engine with the Go types a JSON client produces (string, float64, bool, []any); Go-native ints / []string handed to the embedded API are not covered",
         "filters are OR of ANDs of clauses key op literal with op in = != < <= > >=; range operators are only issued with numeric literals; CONTAINS(), "
         "parentheses and literals containing quotes or the words AND / OR are outside the grammar covered",
-        "the index is small (<= 5 internal ids), so hnsw.AddBatch degenerates to Add (internal ids start at 1) and Compress rebuilds through Add; one index, "
+        "the index is small, so hnsw.AddBatch degenerates to Add (internal ids start at 1) and Compress rebuilds through Add; one index, "
         "no auto-links, no memory layer, no text language (the BM25 side is C09)",
         "replayAOF applies the aggregated entries in Go map order; ids are independent, the specification applies them in a fixed order",
         "VSearch is only required to return a subset of the filter's set (k = 16 > index size; how many of them it returns is C07's concern); "
@@ -322,7 +474,6 @@ def run(tier):
 def replay_file(path):
     rec = json.load(open(path))
     prof, beh = rec["profile"], rec["behaviour"]
-    chk = Check(PROP, "replay")
     binary = vlib.build_harness(cmd="vfilter")
     prof = dict(prof, max_div=50)
     res = vlib.run_sharded(binary, "filter", prof, [beh], shards=1)
